@@ -231,6 +231,49 @@ def run(ctx):
             if got != exp:
                 bad = [c for c in rc.CATS if got is None or got[c] != exp[c]]
                 fail('whole_audit_names_differ', inp, {c: (got or {}).get(c) for c in bad[:2]}, {c: exp[c] for c in bad[:2]})
+    # whole CLIENT audits through main() -c (listening socket, a scripted client connects and speaks first): the same clause for the client role,
+    # on the path a user takes (listen_and_accept -> get_banner -> KEXINIT -> output), in text and JSON
+    for k in range(ctx.scale(20, 300)):
+        wl = gen_wire_lists(r)
+        payload = pg.kexinit_bytes(wl)
+        adv = pg.independent_kexinit_reader(payload)
+        dec = [[n.decode('utf-8', 'replace') for n in l] for l in adv]
+        want = {'kex': dec[0], 'key': dec[1], 'enc': dec[3], 'mac': dec[5]}
+        cbanner = r.choice([b'SSH-2.0-OpenSSH_8.0', b'SSH-2.0-PuTTY_Release_0.78', b'SSH-2.0-dropbear_2020.81', b'SSH-2.0-libssh_0.9.6', b'SSH-2.0-Go'])
+        for extra in ([], ['-j']):
+            peer_ = fakenet.Server(banner=cbanner, kexinit_payload=b'\x14' + payload)
+            net = fakenet.FakeNet({})
+            net.clients = [(peer_, ('192.0.2.50', 50000 + k))]
+            code, text = fakenet.run_main(['-c', '-n', '-p', '2222'] + extra, net)
+            cov.add(('e2e-client', payload, tuple(extra)), True, tags=['whole-client-audit', 'json' if extra else 'text'])
+            inp = {'kexinit_payload_hex': payload.hex(), 'whole_client_audit': True, 'banner': cbanner.decode(), 'args': extra}
+            if net.connects or len(net.accepted) != 1:
+                fail('client_audit_connections', inp, {'outgoing': net.connects[:3], 'accepted': net.accepted}, 'one accepted connection, none opened')
+            if extra:
+                try:
+                    doc = json.loads(text)
+                    got = {c: [e['algorithm'] for e in doc[c]] for c in rc.CATS}
+                    gotc, gotb = doc.get('compression'), (doc.get('banner') or {}).get('raw')
+                except Exception:
+                    got, gotc, gotb = None, None, None
+                exp, expc_, expb = want, dec[7], cbanner.decode()
+            else:
+                got = {c: [] for c in rc.CATS}
+                for line in text.split('\n'):
+                    for c in rc.CATS:
+                        if line.startswith('(%s) ' % c) and not line.startswith('(%s) `- ' % c):
+                            got[c].append(line[6:].split(' -- ')[0].rstrip(' ').split(' (')[0])
+                exp = {c: [n for n in want[c] if n.strip() != ''] for c in rc.CATS}
+                ec = [x for x in dec[7] if x != 'none']
+                gotc, expc_ = [l for l in text.split('\n') if l.startswith('(gen) compression: ')], ['(gen) compression: ' + ('enabled (%s)' % ', '.join(ec) if ec else 'disabled')]
+                gotb, expb = [l for l in text.split('\n') if l.startswith('(gen) banner: ')], ['(gen) banner: ' + cbanner.decode()]
+            if got != exp:
+                bad = [c for c in rc.CATS if got is None or got[c] != exp[c]]
+                fail('whole_audit_names_differ', inp, {c: (got or {}).get(c) for c in bad[:2]}, {c: exp[c] for c in bad[:2]})
+            if gotc != expc_:
+                fail('whole_audit_compression_differs', inp, gotc, expc_)
+            if gotb != expb:
+                fail('whole_audit_banner_differs', inp, gotb, expb)
     mm = ctx.driver(ml) if ctx.driver_ok else []
     for line, m, ex in zip(ml, mm, mexp):
         if m.get('ok') != ex:
@@ -252,6 +295,10 @@ def replay(obj):
         from common import rerun_for_signature
         return rerun_for_signature(sys.modules[__name__], f)
     payload = bytes.fromhex(inp['kexinit_payload_hex'])
+    if inp.get('whole_client_audit'):
+        import sys
+        from common import rerun_for_signature
+        return rerun_for_signature(sys.modules[__name__], f)
     if inp.get('whole_audit'):
         import fakenet
         adv = pg.independent_kexinit_reader(payload)
